@@ -8,4 +8,5 @@ func raceDisable()                 {}
 func raceEnable()                  {}
 func RaceAcquire(p unsafe.Pointer) {}
 func RaceRelease(p unsafe.Pointer) {}
+
 const RaceEnabled = false
